@@ -2,7 +2,7 @@
    Only property theorems here, each closed by `exact`. *)
 From Coq Require Import ZArith List Reals Floats Sorting.Mergesort.
 Import ListNotations.
-Require Import NV.PhaseGrid NV.PhaseGridProofs NV.PhaseFloat.
+Require Import NV.PhaseGrid NV.PhaseGridProofs NV.PhaseFloat NV.PhaseFloatInv.
 
 (* exact arithmetic, any grid resolution 1/(2N), any number of coordinates, any periodic index list *)
 Theorem C16_grid_range : forall N, (0 < N)%Z -> forall per cs inv pt,
@@ -36,6 +36,14 @@ Theorem C16_float_range : forall c x : PrimFloat.float,
   (fin (PhaseFloat.unshift c x) /\ (0 <= FR (PhaseFloat.unshift c x) < 1)%R).
 Proof. exact float_range. Qed.
 Print Assumptions C16_float_range.
+
+(* binary64: the inverse undoes the transform up to rounding, modulo one: unshift c (shift c x) = x + K + e with K an
+   integer and |e| <= 6 * 2^-52, for every finite double x and centre c in [0,1) *)
+Theorem C16_float_inverse : forall c x : PrimFloat.float,
+  fin x -> fin c -> (0 <= FR x < 1)%R -> (0 <= FR c < 1)%R ->
+  exists (K : Z) (e : R), FR (PhaseFloat.unshift c (PhaseFloat.shift c x)) = (FR x + IZR K + e)%R /\ (Rabs e <= 6 * E52)%R.
+Proof. exact float_inverse. Qed.
+Print Assumptions C16_float_inverse.
 
 (* regression witness: before the repair 0.3 with centre 0.8 was mapped to exactly 1.0 *)
 Theorem C16_float_asis_refuted :
